@@ -467,7 +467,12 @@ func TestC16DLEQLargeBatch(t *testing.T) {
 			vlib.Check(t, n, func(t *rapid.T) {
 				vlib.Eval(sub)
 				defer reportOperands(t, key("operand-changed"))
-				m := rapid.SampledFrom([]int{255, 256, 257, 258, 300, 513}).Draw(t, "m")
+				// every case crosses the boundary: a batch of 257 or more, or its prefix of 255 / 256
+				// pairs in a quarter of the cases
+				m := rapid.SampledFrom([]int{257, 257, 258, 300, 513}).Draw(t, "m")
+				if rapid.IntRange(0, 3).Draw(t, "below") == 0 {
+					m = rapid.SampledFrom([]int{255, 256}).Draw(t, "mBelow")
+				}
 				vlib.Class(sub, fmt.Sprintf("batch=%d", m))
 				h := rapid.SampledFrom(dleqHashes).Draw(t, "hash")
 				dst := vlib.Bytes(t, 0, 20, "dst")
